@@ -59,6 +59,8 @@ pub(crate) fn schema_definition(p: &mut Parser) {
         }
 
         p.expect(T!['}'], S!['}']);
+    } else {
+        p.err("expected Root Operation Type Definition");
     }
 }
 
